@@ -259,6 +259,27 @@ class Ctx(object):
         """mark that this path reaches a real assertion (vacuity twin)"""
         self.asserted = True
 
+    def require_exists(self, witness, full, label):
+        """assert an existential: `witness` is a cheap sufficient instance (tried first); `full()` builds the
+        complete disjunction and is only consulted when the witness instance can fail"""
+        self.asserted = True
+        from .core import SBool, Or, Not
+        import z3
+
+        if not self.symbolic:
+            if isinstance(witness, SBool):
+                raise RuntimeError("symbolic condition in concrete mode")
+            if not witness and not full():
+                raise PropertyFail(label)
+            return
+        w = witness.e if isinstance(witness, SBool) else witness
+        if w is True:
+            return
+        if w is not False and self.sp._check(z3.Not(w)) == "unsat":
+            self.sp.solver.add(w)
+            return
+        self.sp.check_assert(Or(witness, full()), label)
+
     def require(self, cond, label):
         """labelled assertion: must hold for every input on this path"""
         self.asserted = True
